@@ -130,7 +130,7 @@ func skipInitPkg(path string) bool {
 		return true
 	}
 	switch path {
-	case "runtime", "os", "syscall", "reflect", "sync", "sync/atomic", "internal/poll", "fmt", "unicode",
+	case "runtime", "os", "syscall", "reflect", "sync", "errors", "sync/atomic", "internal/poll", "fmt", "unicode",
 		"internal/reflectlite", "internal/godebug", "internal/bytealg", "internal/cpu", "unsafe", "crypto/md5", "hash",
 		"regexp", "regexp/syntax", "encoding/binary", "io/fs", "internal/testlog", "internal/oserror", "math/rand",
 		"github.com/klauspost/compress/snappy", "github.com/klauspost/compress", "context", "internal/itoa", "strconv":
